@@ -133,10 +133,16 @@ def generate(seed: int, tier: str) -> dict:
     kr = st["knobs"]
     knobs = {}
     env = {}
+    names = [v["name"] for v in variables]
     if chance(kr, 0.35):
-        knobs["memory"] = {"max": pick(kr, [0.0, 0.5, 1.0]), "priority": [], "drop": []}
+        # "do not cache" settings concern computed values; inputs are honoured all the same
+        knobs["memory"] = {"max": pick(kr, [0.0, 0.5, 1.0]), "priority": [n for n in names if chance(kr, 0.2)],
+                           "drop": [n for n in names if chance(kr, 0.3)]}
         env["mem"] = pick(kr, ["high", "flap", "edge", "low", "rising"])
         env["mem_seed"] = kr.randrange(1 << 30)
+    if chance(kr, 0.2):
+        knobs["blacklist"] = [n for n in names if chance(kr, 0.5)]
+        knobs["opt_out"] = True
     orr = st["ops"]
     writers = [f"W{k}" for k in range(1, orr.randint(2, 6) + 1)]
     ops = []
